@@ -19,7 +19,9 @@ def extra(res, facts, entries, protos):
     _proto.gate_rule(res, "C07.R1", g.header_gate_ok(1), "every accepted token passed the equal edge of a comparison of segment 1 with the expected purpose", g)
     _proto.gate_rule(res, "C07.R1", g.payload_ok(), "the returned payload is the strict base64url decoding of segment 2", g)
     # R2: each consumer calls parse_raw_token first, `?`-propagated, with its own version / purpose markers
-    for e in S.select(entries, "core", "consumer"):
+    # (second opinion: only when the semantic rule C07.S6 - every accepting path of the consumer found the token's header equal to the
+    # protocol's own - could not be decided)
+    for e in (S.select(entries, "core", "consumer") if not getattr(res, "sem_ok", False) else []):
         v = M.view(facts, e.body)
         N = M.Normalizer(facts, keep=S.KEEP)
         calls = v.find_calls(r"parse_raw_token$")
@@ -117,4 +119,4 @@ def run(tier):
         "must-pass-through on parse_raw_token (both header components compared on every accepting path), call-site terms of the 8 consumers (own version / purpose markers, checked first, `?`-propagated), "
         "constant tables of the 6 marker types and the 8 header strings, and the protocol's own header as first authenticated component of all 16 pre-authentication encodings",
         ["MAC / signature strength (a relabelled token fails authentication because the header is under the authenticator)", "segments produced by str::split('.') contain no '.'"],
-        extra, "that a relabelled token fails authentication (follows from R4 + MAC strength)", sem_rules={'C07.S4': 8, 'C07.S5': 24})
+        extra, "that a relabelled token fails authentication (follows from R4 + MAC strength)", sem_rules={'C07.S4': 8, 'C07.S5': 24, 'C07.S6': 8})
